@@ -3446,7 +3446,9 @@ impl GatheringTask for StopTask {
             ServerState::Running,
             "StopTask::on_finish must observe a shutdown run-state, never Running"
         );
-        if timed_out && self.hardness {
+        // exactly one final answer: the timeout report replaces the success message
+        let hard_stop_timed_out = timed_out && self.hardness;
+        if hard_stop_timed_out {
             client.finish_failure(format!(
                 "Workers take too long to stop ({} ok, {} errors), stopping the main process to sever the link",
                 self.gatherer.ok, self.gatherer.errors
@@ -3459,10 +3461,12 @@ impl GatheringTask for StopTask {
             ServerState::Stopping,
             "StopTask::on_finish must leave the master in the Stopping state"
         );
-        client.finish_ok(format!(
-            "Successfully closed {} workers, {} errors, stopping the main process...",
-            self.gatherer.ok, self.gatherer.errors
-        ));
+        if !hard_stop_timed_out {
+            client.finish_ok(format!(
+                "Successfully closed {} workers, {} errors, stopping the main process...",
+                self.gatherer.ok, self.gatherer.errors
+            ));
+        }
     }
 }
 
